@@ -262,3 +262,13 @@ def check(ctx):
     F = ctx.F
     names = ['sskr_join', 'sskr_split_using', 'sskr_split', 'sskr_split_flattened']
     panic.slice_check(ctx, 'C11.4', [F.method1('Envelope', n) for n in names if F.method1('Envelope', n)], 'sskr')
+
+
+_check_before_errflow = check
+
+
+def check(ctx):
+    _check_before_errflow(ctx)
+    # C11.5 error discipline: no error of a fallible call is turned into "absent / false / default" outside the reviewed table
+    from .. import errflow
+    errflow.check(ctx, 'C11.5', ['src/extension/sskr.rs'], 'SSKR family')
